@@ -313,7 +313,7 @@ def same_points(exp, got, scale):
 def heading_of(state):
     """the orientation the statement prescribes: the stored one; atan2(vy, vx) for point-mass states (PMState, and
     custom states that carry a velocity_y and were built without an orientation)"""
-    if L.derived_orientation(state) or (type(state) is CustomState and getattr(state, "velocity_y", None) is not None):
+    if L.derived_orientation(state) or not hasattr(state, "orientation"):
         return math.atan2(state.velocity_y, state.velocity)
     return state.orientation
 
@@ -359,7 +359,7 @@ def check_enclosure(rng, shape, state, rect):
     tol = TOL * scale
     worst = None
     for p in region_samples(rng, state.position):
-        for th in angle_samples(rng, state.orientation if not L.derived_orientation(state) else heading_of(state)):
+        for th in angle_samples(rng, heading_of(state)):
             for d in place_points(shape, p, th):
                 pts, r = (d[1], 0.0) if d[0] == "pts" else ([d[1]], d[2])
                 for x in pts:
@@ -407,7 +407,7 @@ def region_kind(p):
 def unc_kind(state):
     p = state.position
     pk = "exact" if not isinstance(p, Shape) else "region:" + region_kind(p)
-    return f"pos={pk}:ori={'interval' if isinstance(state.orientation, AngleInterval) else 'exact'}"
+    return f"pos={pk}:ori={'interval' if isinstance(getattr(state, 'orientation', None), AngleInterval) else 'exact'}"
 
 
 def judge_region(rng, shape, state, got, where):
